@@ -244,3 +244,101 @@ func lowerTypeLikely(s string) bool {
 	}
 	return true
 }
+
+//go:embed fields_ref.json
+var fieldsRefJSON []byte
+
+type fieldPrint struct {
+	Name string `json:"name"`
+	Type string `json:"type"`
+}
+
+// FieldTable: the fields (name, type) of every struct type declared in the package.
+func (p *Prog) FieldTable() map[string][]fieldPrint {
+	out := map[string][]fieldPrint{}
+	q := func(pk *types.Package) string {
+		if pk == p.Types {
+			return ""
+		}
+		return pk.Name()
+	}
+	sc := p.Types.Scope()
+	for _, n := range sc.Names() {
+		tn, ok := sc.Lookup(n).(*types.TypeName)
+		if !ok {
+			continue
+		}
+		st, ok := tn.Type().Underlying().(*types.Struct)
+		if !ok {
+			continue
+		}
+		for i := 0; i < st.NumFields(); i++ {
+			out[n] = append(out[n], fieldPrint{st.Field(i).Name(), types.TypeString(st.Field(i).Type(), q)})
+		}
+	}
+	return out
+}
+
+// renamedField: the reviewed struct had a field of this name which the analysed struct
+// lacks; if exactly one field of the analysed struct has a name unknown to the reviewed
+// struct and the same type (and, when several qualify, the same position), it is taken
+// to be that field under a new name.
+func (p *Prog) renamedField(structName string, st *types.Struct, field string) *types.Var {
+	ref := map[string][]fieldPrint{}
+	if err := json.Unmarshal(fieldsRefJSON, &ref); err != nil {
+		return nil
+	}
+	rf, ok := ref[structName]
+	if !ok {
+		return nil
+	}
+	known := map[string]bool{}
+	want, wantIdx := "", -1
+	for i, f := range rf {
+		known[f.Name] = true
+		if f.Name == field {
+			want, wantIdx = f.Type, i
+		}
+	}
+	if wantIdx < 0 {
+		return nil
+	}
+	q := func(pk *types.Package) string {
+		if pk == p.Types {
+			return ""
+		}
+		return pk.Name()
+	}
+	var cands []*types.Var
+	var atIdx *types.Var
+	for i := 0; i < st.NumFields(); i++ {
+		f := st.Field(i)
+		if known[f.Name()] || types.TypeString(f.Type(), q) != want {
+			continue
+		}
+		cands = append(cands, f)
+		if i == wantIdx {
+			atIdx = f
+		}
+	}
+	var got *types.Var
+	switch {
+	case len(cands) == 1:
+		got = cands[0]
+	case atIdx != nil:
+		got = atIdx
+	}
+	if got != nil {
+		note := fmt.Sprintf("field %s.%s is taken to be the reviewed %s.%s under a new name (same type%s)", structName, got.Name(), structName, field, map[bool]string{true: ", only candidate", false: ", same position"}[len(cands) == 1])
+		dup := false
+		for _, r := range p.Renames {
+			if r == note {
+				dup = true
+			}
+		}
+		if !dup {
+			p.Renames = append(p.Renames, note)
+		}
+	}
+	return got
+}
